@@ -6,7 +6,7 @@ from pysym.harness import run_cases
 LEVEL = 'exploration'
 DEDUCTIVE = [('contracts.ringsmorgan', ('_canonic_ring',)), ('contracts.ringcount', None)]          # (contract module, case-name filter) run by engine P
 FINISH = dict(rule='deductive: one obligation per path / table key; B: see run.bound entries of checks/b06.py',
-              explanation='F: no memoised value read by this property\'s observables survives an edit it depends on (one obligation per covered mutator x cached key); P: the whole real rings_count == bonds - atoms + components for symbolic degrees, bond and component counts (atoms 1..6 quick, ..12 thorough; callee _connected_components by contract), the whole real not_special_connectivity drops exactly the order-8 bonds (symbolic orders, degree 1..4); _canonic_ring invariant under every rotation/reflection, is one of them and starts at the minimum (ring length 3..4 quick, ..6 thorough; symbolic distinct atom numbers); B: sssr post-conditions on every small connected graph',
+              explanation='F: no memoised value read by this property\'s observables survives an edit it depends on (one obligation per covered mutator x cached key); P: the whole real rings_count == bonds - atoms + components for symbolic degrees, bond and component counts (atoms 1..12 quick, ..16 thorough; callee _connected_components by contract), the whole real not_special_connectivity drops exactly the order-8 bonds (symbolic orders, degree 1..4); _canonic_ring invariant under every rotation/reflection, is one of them and starts at the minimum (ring length 3..4 quick, ..6 thorough; symbolic distinct atom numbers); B: sssr post-conditions on every small connected graph',
               trusted_base=['CPython', 'z3', 'pysym', 'networkx minimum_cycle_basis', 'oracles/o06_gaps.py'])
 replay = make_replay('C06')
 
